@@ -6,7 +6,7 @@ From GV Require Import StrLib.Str StrLib.StrSpec StrLib.Tab StrLib.TabSpec.
 Extraction Language OCaml.
 Extraction "model.ml" Z.add N.add Nat.add Pos.add Z.ltb Z.pow
   Str.sub_im Str.byte_im Str.char_im Str.len_im Str.reverse_im Str.rep_im
-  Str.find_plain_im Str.upper_im Str.lower_im Str.latin1_upper Str.latin1_lower
+  Str.find_plain_im Str.upper_im Str.lower_im
   StrSpec.sub_spec StrSpec.byte_spec StrSpec.char_spec StrSpec.len_spec StrSpec.reverse_spec
   StrSpec.rep_spec_opt StrSpec.upper_spec StrSpec.lower_spec StrSpec.find_spec
   Z.leb Z.sub
